@@ -18,6 +18,7 @@ class Entry:
         self.is_closure = False
         self.num = None         # ('Exactly', 2) ('Variadic', 2, 4) ('Any',) ...
         self.table = None
+        self.extra = []         # (field name, [body keys of functions / closures bound in it]) for fields beyond the four known ones
 
     def accepted(self):
         """Set of accepted operand counts as (lo, hi) inclusive interval over N (hi may be INF), or None if empty."""
@@ -89,6 +90,29 @@ def _resolve_operand(d, o):
             continue
         return ("rv", rv)
     return ("?", o)
+
+
+def _bound_fns(d, o, depth=0):
+    """Body keys of the fn items / closures mentioned anywhere in the constant expression o (Some(f as fn(..)), tuples, …)."""
+    if depth > 8:
+        return []
+    k, v = _resolve_operand(d, o)
+    if k == "const":
+        if isinstance(v, dict) and "fn" in v:
+            fr = v["fn"].get("resolved") or v["fn"]
+            return [fr["key"]]
+        return []
+    if k != "rv":
+        return []
+    out = []
+    if v["k"] == "Cast":
+        out += _bound_fns(d, v["op"], depth + 1)
+    elif v["k"] == "Aggregate":
+        if v.get("agg") == "Closure" and v.get("closure"):
+            out.append(v["closure"])
+        for oo in v.get("ops", []):
+            out += _bound_fns(d, oo, depth + 1)
+    return out
 
 
 def _num_params(d, o):
@@ -171,9 +195,9 @@ def read_tables(facts):
                     raise Inconclusive("cannot map fields of %s" % st["adt"])
                 for fname, fo in zip(fields, st["ops"]):
                     k3, v = _resolve_operand(d, fo)
-                    if k3 == "const" and isinstance(const_value(v), str):
+                    if k3 == "const" and isinstance(const_value(v), str) and e.symbol is None:
                         e.symbol = const_value(v)
-                    elif k3 == "rv" and v["k"] == "Cast":
+                    elif k3 == "rv" and v["k"] == "Cast" and e.fn_key is None:
                         t.fn_ty = v["to"]
                         src = v["op"]
                         k4, f = _resolve_operand(d, src)
@@ -186,11 +210,13 @@ def read_tables(facts):
                             raise Inconclusive("operator of %r is neither a fn item nor a closure" % e.key)
                     elif k3 == "rv" and v["k"] == "Aggregate" and v.get("adt", "").endswith("NumParams"):
                         e.num = _num_params(d, fo)
-                    elif k3 == "const" and "fn" in v:
+                    elif k3 == "const" and "fn" in v and e.fn_key is None:
                         fr = v["fn"].get("resolved") or v["fn"]
                         e.fn_key, e.fn_path = fr["key"], fr["path"]
                     else:
-                        raise Inconclusive("unreadable field %s of table entry %r" % (fname, e.key))
+                        # a field beyond (symbol, operator, arity): recorded with the functions bound in it — a second
+                        # function per entry is part of the program (call graph, C03 K6) but is not "the operator"
+                        e.extra.append((fname if isinstance(fname, str) else str(fname), _bound_fns(d, fo)))
                 if e.key is None or e.symbol is None or e.fn_key is None or e.num is None:
                     raise Inconclusive("incomplete table entry %r in %s" % (e.key, key))
                 t.entries.append(e)
